@@ -161,7 +161,8 @@ def monStep (c : Cfg) (report : Bool) (m : Mon) (op : Op) (n : Nat) (o : ObsLine
   -- NX: the not-found marker only ever goes into a FREE slot — an entry that is not the marker can become the
   -- marker only if a DEL of its key on its node succeeded in this very operation (unparsable entry removed)
   let isRaw : Bool := match op with | .raw .. => true | _ => false
-  let overwritten := if isRaw then [] else (cur.filter fun x => x.val = .ph && (match m.prev.find (x.node, x.key) with
+  -- (`n = 0` marks the concurrent read `ctake`, whose cache commands are not listed)
+  let overwritten := if isRaw || n = 0 then [] else (cur.filter fun x => x.val = .ph && (match m.prev.find (x.node, x.key) with
       | some old => old.val ≠ .ph && !(o.cmds.any fun r => r.cmd = .del && !r.fail && r.node = x.node && r.keys.contains x.key)
       | none => false)).map fun x =>
     s!"marker: the not-found marker replaced an existing entry of key {repr x.key} on node {x.node} (SET NX must leave an occupied slot alone)"
